@@ -169,7 +169,7 @@ class ffunc_count(ffunc):
             validity = None
         else:
             weights, validity = as_separate_validity(weights)
-            weights = weights.copy()
+            weights = weights.astype(float)
             weights[~validity] = 0
 
         self.validity = validity
